@@ -55,7 +55,8 @@ theorem quiet_mkChild (s : State) (p : Nat) : Quiet s (mkChild s p) := by
   simp [mkChild, upd_other _ _ e]
 
 theorem quiet_waitDone (s : State) (q : Nat) : Quiet s (waitDone s q) := by
-  unfold waitDone; dsimp only; split <;> exact quiet_of_eq rfl rfl rfl rfl
+  have h := waitDone_ghost s q
+  exact quiet_of_eq h.2.2.1 h.2.2.2.1 h.2.2.2.2.1 h.2.2.2.2.2
 
 theorem quiet_startOp (s : State) (t : Nat) (op : Op) : Quiet s (startOp s t op) := by
   cases op with
@@ -130,7 +131,8 @@ theorem ls_step {s : State} (g : Good s) (o : Ord s) (l : LS s) (t : Nat) (a : A
             (quiet_mkChild _ p)) (quiet_addHook _ t p _))
       · split
         · exact ls_quiet g l (quiet_of_eq rfl rfl rfl rfl)
-        · exact l
+        · exact ls_quiet g l (quiet_of_eq rfl rfl rfl rfl)
+      · exact l
       · split
         · exact l
         · rename_i f rest hst
